@@ -64,6 +64,7 @@ choice was made instead that the issuer is always the revocation authority.
 package revocation
 
 import (
+	"bytes"
 	"crypto/ecdsa"
 	"encoding/base64"
 	"encoding/binary"
@@ -98,7 +99,8 @@ type (
 		PKCounter   uint           `json:"pk"`
 		Accumulator *Accumulator   `json:"-"` // Accumulator contained in this instance, set by UnmarshalVerify()
 
-		verifiedBy *ecdsa.PublicKey // the key under which UnmarshalVerify() verified Accumulator
+		verifiedBy   *ecdsa.PublicKey // the key under which UnmarshalVerify() verified Accumulator
+		verifiedData signed.Message   // the signed data that Accumulator was verified from
 	}
 
 	// Event contains the data clients need to update to the Accumulator of the specified index,
@@ -220,9 +222,10 @@ func (acc *Accumulator) Remove(sk *gabikeys.PrivateKey, e *big.Int, parent *Even
 // UnmarshalVerify verifies the signature and unmarshals the accumulator
 // (c.f. Accumulator.Sign()).
 func (s *SignedAccumulator) UnmarshalVerify(pk *gabikeys.PublicKey) (*Accumulator, error) {
-	// The outcome of an earlier verification only holds for the key it was made with.
+	// The outcome of an earlier verification only holds for the key it was made with and for the
+	// data it was made from (decoding into a used value replaces Data and leaves the rest).
 	if s.Accumulator != nil && s.verifiedBy != nil && pk.ECDSA != nil &&
-		pk.Counter == s.PKCounter && s.verifiedBy.Equal(pk.ECDSA) {
+		pk.Counter == s.PKCounter && s.verifiedBy.Equal(pk.ECDSA) && bytes.Equal(s.verifiedData, s.Data) {
 		return s.Accumulator, nil
 	}
 	msg := &Accumulator{}
@@ -232,7 +235,7 @@ func (s *SignedAccumulator) UnmarshalVerify(pk *gabikeys.PublicKey) (*Accumulato
 	if err := signed.UnmarshalVerify(pk.ECDSA, s.Data, msg); err != nil {
 		return nil, err
 	}
-	s.Accumulator, s.verifiedBy = msg, pk.ECDSA
+	s.Accumulator, s.verifiedBy, s.verifiedData = msg, pk.ECDSA, append(signed.Message{}, s.Data...)
 	return s.Accumulator, nil
 }
 
